@@ -237,5 +237,32 @@ def excluded_table(base, dirs, files, patterns_regex):
     return out
 
 
+def has_ambiguous_imports(dirs, files, mp):
+    """An absolute import name that can be read both ways - fully qualified from the root AND relative to
+    module_path's parent, both readings naming existing modules of the tree - is ambiguous.  The properties
+    speak of imports 'written either fully qualified ... or relative to module_path's parent'; a name that is
+    both is outside their claims (the code prefers the parent-relative reading)."""
+    if len(mp) <= 1:
+        return False
+    allmods = {dotted(d) for d in dirs} | {dotted(f) for f, v in files.items() if v["py"]}
+    ap = dotted(mp[:-1])
+
+    def names_of(s0):
+        if s0[0] == "import":
+            return list(s0[1])
+        if s0[0] == "from" and s0[1] == 0:
+            return [s0[2]] + [s0[2] + "." + nmx for nmx in s0[3]]
+        if s0[0] == "block":
+            return [x for c0 in s0[2] for x in names_of(c0)]
+        return []
+    for f0, v0 in files.items():
+        if v0["py"] and f0[:len(mp)] == mp:
+            for s0 in v0["body"]:
+                for nm0 in names_of(s0):
+                    if nm0 in allmods and ap + "." + nm0 in allmods:
+                        return True
+    return False
+
+
 def cleanup(base):
     shutil.rmtree(base, ignore_errors=True)
